@@ -20,7 +20,7 @@ for pid, e in ent.items():
              "engine": "govc",
              "technique": "contract-based deductive verification: weakest-precondition style VCs generated from go/ssa of the real functions, discharged by SMT (z3/cvc5)"}
         m['checks'].append(c)
-    c['level_claimed'] = {"category": e.get('category', 'proof'), "text": e['level_text'], "design_ref": e.get('design_ref', f"DESIGN.md section 4 {pid}")}
+    c['level_claimed'] = {"category": e.get('category', 'proof'), "text": e['level_text'], "design_ref": e.get('design_ref', f"DESIGN.md section 6 {pid}")}
     c['level_note'] = e['level_note']
     m['not_applicable'] = [n for n in m['not_applicable'] if n['property_id'] != pid]
 for pid, reason in ent.get('_not_applicable', {}).items() if isinstance(ent.get('_not_applicable'), dict) else []:
